@@ -43,7 +43,14 @@ def pools():
     # lines of space in special positions: through the origin, parallel to an axis, in a coordinate plane, at infinity, generic
     LX = [((0, 0, 0), (1, 2, 3)), ((0, 0, 3), (1, 0, 3)), ((-2, -2, 0), (-1, -2, 0)), ((2, 2, 3), (2, 5, 3)), ((1, 1, 1), (2, 3, 5)), ((0, 0, 0), (0, 0, 1)),
           ((1, 0, 0), (1, 0, 4)), ((0, 1, 2), (3, 1, 2)), ((1, 2, 0), (3, -1, 0)), ((0, 0, 0), (1, 1, 0)), ((4, -1, 2), (0, 1, 1))]
+    # points of which many triples / quadruples are collinear (on y = x) or coplanar (in z = x + y) and many are not
+    MP2 = [(0, 0, 1), (1, 1, 1), (2, 2, 1), (3, 3, 1), (1, 0, 1), (0, 2, 1), (4, 4, 1), (2, 1, 1), (-1, -1, 1), (5, 5, 2), (3, 1, 1)]
+    ML2 = [(1, -1, 0), (1, 0, -1), (0, 1, -1), (1, 1, -2), (2, -1, -1), (1, 0, 0), (1, 2, -3), (0, 1, 2), (3, -2, -1), (1, 1, 1), (1, -3, 2)]   # many pass through (1,1)
+    MP3 = [(0, 0, 0, 1), (1, 0, 1, 1), (0, 1, 1, 1), (1, 1, 2, 1), (2, 1, 3, 1), (1, 2, 3, 1), (0, 0, 1, 1), (2, 2, 4, 1), (1, 0, 0, 1), (-1, 1, 0, 1), (3, 0, 3, 1)]
     return {
+        "mpoint2": ([g.Point(np.array(p)) for p in MP2], lambda xs: g.PointCollection(np.array([x.array for x in xs]))),
+        "mline2": ([g.Line(np.array(l)) for l in ML2], lambda xs: g.LineCollection(np.array([x.array for x in xs]))),
+        "mpoint3": ([g.Point(np.array(p)) for p in MP3], lambda xs: g.PointCollection(np.array([x.array for x in xs]))),
         "line3x": ([g.Line(g.Point(*a), g.Point(*b)) for a, b in LX], lambda xs: g.LineCollection(np.array([x.array for x in xs]))),
         "cpoint2": ([g.Point(np.array(p)) for p in CP2], lambda xs: g.PointCollection(np.array([x.array for x in xs]))),
         "cpoint3": ([g.Point(np.array(p)) for p in CP3], lambda xs: g.PointCollection(np.array([x.array for x in xs]))),
@@ -120,6 +127,9 @@ def optable():
     op("harmonic_set_ppp2", ("cpoint2",) * 3, lambda a, b, c: g.harmonic_set(a, b, c))
     op("harmonic_set_ppp3", ("cpoint3",) * 3, lambda a, b, c: g.harmonic_set(a, b, c))
     op("is_concurrent_lll2", ("line2",) * 3, lambda a, b, c: g.is_concurrent(a, b, c))
+    op("is_collinear_pppp2", ("mpoint2",) * 4, lambda a, b, c, d: g.is_collinear(a, b, c, d))
+    op("is_concurrent_llll2", ("mline2",) * 4, lambda a, b, c, d: g.is_concurrent(a, b, c, d))
+    op("is_coplanar_ppppp3", ("mpoint3",) * 5, lambda a, b, c, d, e: g.is_coplanar(a, b, c, d, e))
     op("is_collinear_ppp2", ("point2", "point2", "point2"), lambda a, b, c: g.is_collinear(a, b, c))
     op("is_cocircular2", ("point2", "point2", "point2", "point2"), lambda a, b, c, d: g.is_cocircular(a, b, c, d))
     op("is_perpendicular_ll2", ("line2", "line2"), lambda a, b: g.is_perpendicular(a, b))
@@ -202,7 +212,7 @@ def compare_pos(cres, sres, pos, out_shape, opname=""):
 SCALES = [1, 2000, 0.001, -3, 1500, -0.5]
 QSCALES = [1, 30, 0.05, -3, 20, -0.5]     # matrices of quadrics and transformations: moderate factors (absolute tolerances on
                                           # quadratic / cubic expressions of the entries are by design not scale free)
-SCALABLE = ("point2", "line2", "point3", "plane3", "line3", "quadric2", "trafo2", "cpoint2", "cpoint3", "cline2", "cplane3", "cline3", "line3x")
+SCALABLE = ("point2", "line2", "point3", "plane3", "line3", "quadric2", "trafo2", "cpoint2", "cpoint3", "cline2", "cplane3", "cline3", "line3x", "mpoint2", "mline2", "mpoint3")
 
 
 def _rescaled(x, f):
@@ -307,7 +317,7 @@ def replay_indexing(_):
         if not cond:
             out.append(dict(site=site, stratum="indexing", case={}, expected=exp, observed=obs))
 
-    elem = {"line3x": g.Line, "cpoint2": g.Point, "cpoint3": g.Point, "cline2": g.Line, "cplane3": g.Plane, "cline3": g.Line, "point2": g.Point, "line2": g.Line, "point3": g.Point, "plane3": g.Plane, "line3": g.Line, "quadric2": g.Quadric,
+    elem = {"mpoint2": g.Point, "mline2": g.Line, "mpoint3": g.Point, "line3x": g.Line, "cpoint2": g.Point, "cpoint3": g.Point, "cline2": g.Line, "cplane3": g.Plane, "cline3": g.Line, "point2": g.Point, "line2": g.Line, "point3": g.Point, "plane3": g.Plane, "line3": g.Line, "quadric2": g.Quadric,
             "trafo2": g.Transformation, "seg2": g.Segment, "poly2": g.Polygon}
     for kind, (pool, mk) in PL.items():
         xs = pool[:6]
